@@ -265,7 +265,33 @@ def open_ended_group_parallel_limit(case, v):
     graph uses at DSG level (iter_conn_edges / validate_conn_edges): the processor decodes connection sets the DSG API
     rejects"""
     spec = _spec(case)
-    return any(any(_open_ended(spec, m) for m in g['members']) for _, _, g in _groups(spec))
+    for cc in spec.get('conns', []):
+        def item_info(it):
+            if isinstance(it, dict):
+                mem = it['members']
+                return it['grp'], any(_open_ended(spec, m) for m in mem), bool(spec['nodes'][mem[0]].get('rep')), True
+            return it, _open_ended(spec, it), bool(spec['nodes'][it].get('rep')), False
+        excl = {tuple(e) for e in cc.get('excl', [])}
+        sides = {side: [item_info(it) for it in cc[side]] for side in ('src', 'tgt')}
+        # the only connection sets the raised limit adds have > limit parallel edges between two repeatable open-ended
+        # connectors that may be connected
+        pair = any(so and sr and to and tr and (sn, tn) not in excl
+                   for sn, so, sr, _ in sides['src'] for tn, to, tr, _ in sides['tgt'])
+        if not pair:
+            continue
+        for side, other in (('src', 'tgt'), ('tgt', 'src')):
+            for gn, g_open, g_rep, is_grp in sides[side]:
+                if not (is_grp and g_open):
+                    continue
+                # upper bound of the override list of the group: what the opposite side can supply under the base limit
+                n_max = 0
+                for on, _, o_rep, _ in sides[other]:
+                    if ((gn, on) if side == 'src' else (on, gn)) in excl:
+                        continue
+                    n_max += 2 if (g_rep and o_rep) else 1
+                if n_max >= 3:
+                    return True
+    return False
 
 
 def pattern_encoder_impute_at_graph_level(case, v):
